@@ -42,7 +42,7 @@ PROPS["C18"] = {
     "rule": "per shift: hi at both clip boundaries +-3, extremes, random; lo extremes + random; adjacent (hi,lo) pairs",
 }
 PROPS["C10"] = {
-    "modules": ["C10", "C10lp2"],
+    "modules": ["C10", "C10lp2", "C10lp2t"],
     "families": ["lowpass"],
     "n_quick": 100000, "n_thorough": 1000000,
     "clauses_proved": [
@@ -52,12 +52,13 @@ PROPS["C10"] = {
         "second order: one-step linear form under explicit no-overflow preconditions (lp2_step_linear); the only resting state under a constant input has velocity 0 and get() = x exactly, i.e. DC gain exactly 1 at rest (lp2_fixed_point_iff)",
         "NEGATION: second order wraps/panics near full scale (lp2_fullscale_overflow_witness): known finding F-C10",
         "SECOND ORDER (Props/C10lp2.lean), every documented Butterworth k (integer k, k0 = floor(k^2/2^32), k1 = -floor(sqrt(2 k^2)), 2^16 <= k <= 2^31/sqrt2), both profiles: exact error recursion with the two floor remainders (lp2_error_recursion); admissibility and complex characteristic roots of every such pair (lp2_butterworth_admissible); input-to-state stability through an exactly multiplicative quadratic Lyapunov form (lp2_settles_of_safe, lp2_settles_of_safe2); MAIN RESULT lp2_level_change_pm2p30: a filter in a start state at ANY level |xo| <= 2^30 (set(xo), lp2_start2_reset, or the state reached by an earlier settled step) switched to ANY constant |x| <= 2^30 - i.e. every step up to 2^31, including those whose first updates saturate the input difference - never panics or wraps, and after finitely many updates it is again a start state and get() and every output stay within 4*2^32/k + 4 LSB of x for ever, so steps can be chained indefinitely (small steps: symmetric sector-safe region; steps above 3*2^28: approach-phase argument with a first-quadrant invariant, a two-piece velocity bound, decay of the quadratic form over floor(2^32/b) updates and hand-off to a sector-safe region, Lemmas/Lp2Big*.lean); earlier partial forms kept (lp2_level_change_pm2p29, lp2_level_change_pm2p30_step); no panic and bounded outputs for ARBITRARY input sequences within +-2^29 (lp2_any_input_pm2p29); the same over all states reachable by set() and histories within +-2^28 (lp2_reachable_settles_pm2p28)",
+        "EXPLICIT SETTLING TIME (Props/C10lp2t.lean): in the setting of lp2_level_change_pm2p30 (every documented Butterworth k, levels within +-2^30, every step up to 2^31, both profiles, clipping included) no update ever panics and for EVERY n >= 2400*(2^32/k + 1) the state is a start state at x and get() and the output are within 4*2^32/k + 4 LSB of x (lp2_level_change_pm2p30_time; small steps with 2332: lp2_level_change_pm2p30_time_partial). The constant is not tight (observed: about 40*2^32/k); it comes from 275 halvings of the excess of the quadratic form to reach the exact equilibrium level, 28 halvings of the centred error, and the hand-off window of the approach phase",
     ],
     "clauses_explored": [
-        "second order: the 5% overshoot bound and an explicit settling time (native sweep over k x level pairs; the proved part is 'no overflow, and eventually within 4*2^32/k+4 LSB for ever' for all levels within +-2^30); levels between 2^30 and 0.95 of full scale (native only)",
+        "second order: the 5% overshoot bound (native sweep over k x level pairs, observed maximum 4.36%; a quadratic-form argument can only give about 37-50%, the analysis is a comment in Props/C10lp2t.lean, target statement lp2_overshoot_le_50_target unproved) and a TIGHT settling time (proved: 2400*(2^32/k+1); observed and used by the oracle: about 40*2^32/k); levels between 2^30 and 0.95 of full scale (native only)",
         "second order never wraps for steps whose target level is below 0.95 of full scale (native, against an unbounded-integer reference of the same recurrence)",
     ],
-    "level_text": "The first-order clauses are theorems for all gains, all i64 states and all inputs. For the second order, no-overflow and settling within 4*2^32/k+4 LSB are theorems for every documented Butterworth gain and every step between levels within +-2^30 (half of full scale; Lyapunov / input-to-state-stability argument over the integers plus an approach-phase argument for steps that saturate); levels beyond 2^30, the 5% overshoot and the settling time are explored only; the failing full-scale clause is a proved negation and a known finding.",
+    "level_text": "The first-order clauses are theorems for all gains, all i64 states and all inputs. For the second order, no-overflow and settling within 4*2^32/k+4 LSB are theorems for every documented Butterworth gain and every step between levels within +-2^30 (half of full scale; Lyapunov / input-to-state-stability argument over the integers plus an approach-phase argument for steps that saturate); with an explicit settling time of 2400*(2^32/k+1) updates; levels beyond 2^30 and the 5% overshoot are explored only; the failing full-scale clause is a proved negation and a known finding.",
     "level_note": "Model: lp1Update, lp2Update, lpGet, lpSet (IdspModel/Model/Lowpass.lean). Lowpass<N> for N other than 1, 2 is unimplemented!() in the code and not modelled.",
     "rule": "lp1: arbitrary/set()/reachable states x lattice gains x full-scale alternations; lp2: k lattice x level pairs; each configuration distinct",
 }
@@ -128,6 +129,8 @@ PROPS["C13"] = {
     "rule": "orders 0..=5, rates 0..=32, i32/i64/i128, arbitrary low-rate sequences sized to avoid overflow; contract violations in the correspondence stream",
 }
 PROPS["C05"] = {
+    "trusted_extra": ["Props/C03F.lean, Props/C04F.lean, Props/C05q.lean (QuantFl) and Props/C15F.lean take the standard model of floating-point arithmetic as a hypothesis (structure FlModel u: each + - x returns exact*(1+d), |d| <= u; FlModelU adds an absolute underflow term; FlModelX: representable exact results are returned exactly; max/min exact). That IEEE binary32/64 satisfies it with u = 2^-24 / 2^-53 absent overflow is assumed (Higham, Accuracy and Stability of Numerical Algorithms, Thm 2.2), not proved; the bit-level behaviour incl. NaN/inf is tied by the fbiquad correspondence over Lean Float32/Float, which trusts the Lean runtime's float primitives to be IEEE."],
+    "modules": ["C05", "C05q"],
     "families_exhaustive": ["num8_all"],
     "families": ["num"],
     "n_quick": 200000, "n_thorough": 2000000,
@@ -135,15 +138,17 @@ PROPS["C05"] = {
         "macc = (clamp(floor(T/ONE)), T mod ONE), remainder in [0, ONE), floor*ONE + rem = T, parametric in (w, q) and for the four instances (macc_exact, macc_exact_instances); release wrap form (macc_release_wrap); checked overflow panics exactly when T does not fit (macc_checked_overflow); arbitrary e1 is a genuine bitwise or (macc_any_e1)",
         "mul_scaled = floor((a*b + ONE/2)/ONE) (mul_scaled_exact), x*ONE = x (mul_scaled_one), div_scaled = truncated quotient, b = 0 panics (div_scaled_exact)",
         "-2 exactly representable (neg_two_representable); clip (clip_spec)",
+        "QUANTIZE (Props/C05q.lean), real-valued specification quantizeR w q v = satI w (roundHalfAway (v*2^q)) of `(value * 2^Q).round() as T`, all w, q, all real v: nearest coefficient, |q - v 2^q| <= 1/2 and no integer is closer (quant_nearest, quant_nearest_unique), ties go away from zero (quant_ties_away); saturation to MIN/MAX and nearest element OF THE TYPE'S RANGE for every real v (quant_saturates, quant_saturates_nearest, quant_fits_of_range); monotone (quant_monotone); exact on every representable coefficient k/2^q, ONE, NEG_ONE and -2 -> MIN for the four types, +2 saturates to MAX (quant_exact_on_coefficients, quant_constants, quant_constants_instances); odd symmetry, no bias (quant_odd, quant_odd_quantize); coefficient error at most 2^-(q+1) (quant_scale_error); under the explicit float hypotheses QuantFl (FlModelX + IEEE round-to-integral exact on representable values; power-of-two scaling without overflow/underflow exact) the float pipeline equals quantizeR (quant_float_eq, quant_float_nearest)",
     ],
     "clauses_explored": [
-        "quantize(real) gives the nearest coefficient (float multiply + round: not modelled; sampled natively for i16/i32)",
+        "quantize on the real IEEE arithmetic (overflow to +-inf saturates, underflow, NaN -> 0 have no counterpart in the real-valued theorem): Lean Float transcription quantizeInt tied bit-exactly by the f_quantize correspondence; nearest-coefficient oracle natively for i16/i32/i64",
     ],
-    "level_text": "The integer clauses are theorems parametric in the width and the number of fractional bits (bit-level offset split proved equal to u*ONE + e1); the float->fixed quantize clause is explored only.",
-    "level_note": "Model: macc, mulScaled, divScaled, clip (IdspModel/Model/Num.lean). Not modelled: quantize (f32/f64 multiply and round), the float Coefficient impls.",
+    "level_text": "The integer clauses are theorems parametric in the width and the number of fractional bits (bit-level offset split proved equal to u*ONE + e1); the float->fixed quantize clause is a theorem about the real-valued specification and, under the explicit float hypotheses QuantFl, about the float pipeline; the real IEEE corner cases are tied by correspondence.",
+    "level_note": "Model: macc, mulScaled, divScaled, clip (IdspModel/Model/Num.lean). quantize: quantizeR (Lemmas/Quantize.lean, reals) and quantizeInt (DriverF.lean, Lean Float, op f_quantize). The float Coefficient impls are modelled in Model/BiquadF.lean.",
     "rule": "i8 macc: the complete (u, s) plane x limit pairs x e1 lattice (complete e1 range in thorough); i8 mul/div all pairs; wider types lattice + random",
 }
 PROPS["C03"] = {
+    "trusted_extra": ["Props/C03F.lean, Props/C04F.lean, Props/C05q.lean (QuantFl) and Props/C15F.lean take the standard model of floating-point arithmetic as a hypothesis (structure FlModel u: each + - x returns exact*(1+d), |d| <= u; FlModelU adds an absolute underflow term; FlModelX: representable exact results are returned exactly; max/min exact). That IEEE binary32/64 satisfies it with u = 2^-24 / 2^-53 absent overflow is assumed (Higham, Accuracy and Stability of Numerical Algorithms, Thm 2.2), not proved; the bit-level behaviour incl. NaN/inf is tied by the fbiquad correspondence over Lean Float32/Float, which trusts the Lean runtime's float primitives to be IEEE."],
     "modules": ["C03", "C03F"],
     "families": ["biquad", "num", "fbiquad"],
     "n_quick": 150000, "n_thorough": 1500000,
@@ -163,6 +168,7 @@ PROPS["C03"] = {
     "rule": "all widths, N in {4,5,2}, coefficient styles (arbitrary, integrator, double integrator, identity), fed-back histories, accumulator-overflow cases",
 }
 PROPS["C04"] = {
+    "trusted_extra": ["Props/C03F.lean, Props/C04F.lean, Props/C05q.lean (QuantFl) and Props/C15F.lean take the standard model of floating-point arithmetic as a hypothesis (structure FlModel u: each + - x returns exact*(1+d), |d| <= u; FlModelU adds an absolute underflow term; FlModelX: representable exact results are returned exactly; max/min exact). That IEEE binary32/64 satisfies it with u = 2^-24 / 2^-53 absent overflow is assumed (Higham, Accuracy and Stability of Numerical Algorithms, Thm 2.2), not proved; the bit-level behaviour incl. NaN/inf is tied by the fbiquad correspondence over Lean Float32/Float, which trusts the Lean runtime's float primitives to be IEEE."],
     "modules": ["C04", "C04F"],
     "families": ["biquad", "fbiquad"],
     "n_quick": 150000, "n_thorough": 1500000,
@@ -177,7 +183,7 @@ PROPS["C04"] = {
         "that Rust's f32/f64 max/min satisfy the three clamp laws (IEEE maxNum/minNum; tied bit-exactly through the fbiquad correspondence incl. NaN/infinite samples) and bit-identical recovery on the implementation (native)",
     ],
     "level_text": "Limit and no-wind-up clauses are theorems for all widths and state forms; the N = 5 literal 'bit-identical' claim is false (proved negation, known finding, <= 1 LSB).",
-    "level_note": "Model: as C03. Floats: explored natively only.",
+    "level_note": "Model: as C03; float limits: Props/C04F.lean over the abstract carrier / the standard rounding model.",
     "rule": "integrating and double-integrating filters, all limit pairs on the lattice, saturation durations 2 vs 2+l within the same saturation episode, random continuations",
 }
 
@@ -231,18 +237,20 @@ PROPS["C14"] = {
     "rule": "random f32/f64 streams cut two ways (0-length, granule, maximal and random blocks), all ten tap sets, cascade depths 0..=4, in place and separate",
 }
 PROPS["C15"] = {
-    "modules": ["C15", "C15spec"],
+    "trusted_extra": ["Props/C03F.lean, Props/C04F.lean, Props/C05q.lean (QuantFl) and Props/C15F.lean take the standard model of floating-point arithmetic as a hypothesis (structure FlModel u: each + - x returns exact*(1+d), |d| <= u; FlModelU adds an absolute underflow term; FlModelX: representable exact results are returned exactly; max/min exact). That IEEE binary32/64 satisfies it with u = 2^-24 / 2^-53 absent overflow is assumed (Higham, Accuracy and Stability of Numerical Algorithms, Thm 2.2), not proved; the bit-level behaviour incl. NaN/inf is tied by the fbiquad correspondence over Lean Float32/Float, which trusts the Lean runtime's float primitives to be IEEE."],
+    "modules": ["C15", "C15spec", "C15F"],
     "families": ["hbf"],
     "n_quick": 3000, "n_thorough": 30000,
     "clauses_proved": [
         "over any commutative ring: stage output = convolution with the symmetric FIR [t0,0,t1,0,...,1,...,0,t0], decimated by two and halved / applied to the zero-stuffed input, with explicit index alignment (hbf_fir_shape, hbfdec_is_decimated_convolution, hbfint_is_convolution_of_zero_stuffed, symfir_window_sum, hbf_fir_sum_three_parts)",
         "after response_length() outputs of zero input every output is zero, stages and cascades, from any state (hbfdec_zero_after_response_length, hbfint_zero_after_response_length, *_cascade_zero_after_response_length, *_class versions for IEEE signed zeros)",
         "PUBLISHED SPEC for the exact (binary32) tap values over the rationals/reals, every depth 1..=4, both directions: taps are exactly the f32 values of the source literals (hbf_taps_are_binary32); the literal buffer model's impulse response is hbfCascadeFir (hbf_cascade_impulse_response_int/_dec); exactly symmetric, spans response_length()+1 samples, |DC - 1| < 1e-6 (hbf_cascade_symmetric, hbf_cascade_span, hbf_cascade_dc_gain); response = pure delay x real product of stage amplitudes (hbf_cascade_response_factorisation); pass band |gain - 1| <= 2.3e-7, ripple <= 2e-6 dB <= 3e-6 dB up to 0.4; stop band <= 1e-7 = -140 dB <= -138 dB from 0.6 to the high-rate Nyquist incl. all images (hbf_cascade_passband_ripple, hbf_cascade_stopband, hbf_cascade_spec_full_holds; tightness hbf_cascade_bounds_tight) -- certified by a kernel-run reflective interval checker on exact Chebyshev recurrences",
+        "F32 EVALUATION (Props/C15F.lean), the stage model over the reals with the standard rounding model FlModel u, code's evaluation order (pair sum, times tap, left-to-right accumulation from zero; product l passes M-l+2 roundings): one symmetric-FIR output within sum_l g_{M-l+2} |(w[l]+w[2M-1-l]) t_l| of the exact value, tight (fhbf_symfir_error, fhbf_symfir_error_uniform, fhbf_symfir_error_tight); decimator and interpolator single outputs (fhbf_dec_output_error, fhbf_int_output_error; odd interpolator outputs are exact copies); BLOCK LEVEL: every output of every multi-block run from the zero state differs from the exact decimated convolution / convolution of the zero-stuffed input by at most the per-term bound, independent of run length (fhbf_dec_run_error, fhbf_int_run_error), uniform forms g_{M+4} (1/2 + sum|t|) B and g_{M+2} 2 sum|t| B for |x| <= B (fhbf_dec_run_error_uniform, fhbf_int_run_error_uniform); for the five published tap sets (the tied constants hbfTapsQ) in binary32: error <= c/2^24 * max|x| with c = 11, 8, 7, 7, 6 (decimator) and 14, 9, 7, 7, 6 (interpolator) (fhbf_dec_published_f32, fhbf_int_published_f32), so the C15spec figures hold for one f32 stage up to 8.4e-7 * max|x|",
     ],
     "clauses_explored": [
-        "the same numbers for the running f32 code (rounding of the f32 arithmetic is outside the theorem): impulse response of the implementation on a dense frequency grid; stage = FIR to float rounding",
+        "the running f32 code on the real IEEE arithmetic: impulse response of the implementation on a dense frequency grid; stage = FIR to float rounding (native); propagation of the per-stage rounding terms through the cascades (formula in the header of Props/C15F.lean, not a theorem)",
     ],
-    "level_text": "The FIR equivalence, zero-after-response-length and the complete published specification (symmetry, span, DC gain, pass-band ripple, stop-band attenuation incl. images) for the exact tap values are theorems; what remains explored-only is the effect of f32 rounding in the running code.",
+    "level_text": "The FIR equivalence, zero-after-response-length and the complete published specification (symmetry, span, DC gain, pass-band ripple, stop-band attenuation incl. images) for the exact tap values are theorems; the effect of f32 rounding is bounded per stage under the standard model of floating-point arithmetic (an explicit hypothesis, see trusted base); cascade propagation of the rounding terms and the real IEEE arithmetic are explored only.",
     "level_note": "Model as C14. The tap values are constants of the crate; they are dumped at run time and used by the model driver.",
     "rule": "frequency grid 2^12 (2^15 thorough) points over 0..high-rate Nyquist per cascade depth and direction; FIR check on random streams for all ten tap sets",
 }
